@@ -65,11 +65,31 @@ for _n in NAMES:
     DOTTED[f"solo.{_n}-der"] = f"{_n}_solo"
 
 
+FORMS = ("trad", "crlf", "sec1", "text")      # <kind>-<form>: other standard serialisations of the identity <kind>_form
+
+
 def identity(key_name: str) -> str:
     """harness identity behind a key name of the main key directory"""
     if key_name in DOTTED:
         return DOTTED[key_name]
+    if "-" in key_name and key_name.split("-")[1] in FORMS:
+        return key_name.split("-")[0] + "_form"
     return key_name.replace("_der", "")
+
+
+def form_blob(kind, form):
+    """-> (extension, bytes) or None when the form does not exist for this key type"""
+    k = private_key(kind + "_form")
+    pk8 = k.private_bytes(serialization.Encoding.PEM, serialization.PrivateFormat.PKCS8, serialization.NoEncryption())
+    if form == "crlf":
+        return "pem", pk8.replace(b"\n", b"\r\n")
+    if form == "text":
+        return "pem", b"Key for the release build\n\n" + pk8 + b"\n"
+    if kind not in _CURVES:
+        return None
+    if form == "trad":
+        return "pem", k.private_bytes(serialization.Encoding.PEM, serialization.PrivateFormat.TraditionalOpenSSL, serialization.NoEncryption())
+    return "der", k.private_bytes(serialization.Encoding.DER, serialization.PrivateFormat.TraditionalOpenSSL, serialization.NoEncryption())
 
 
 def key_dir_alt() -> str:
@@ -121,6 +141,12 @@ def key_dir(_unused=None) -> str:
     for n in ("aes", "aes_b"):
         with open(os.path.join(tmp, f"{n}.bin"), "wb") as fh:
             fh.write(aes_key(n))
+    for n in NAMES:
+        for form in FORMS:
+            fb = form_blob(n, form)
+            if fb:
+                with open(os.path.join(tmp, f"{n}-{form}.{fb[0]}"), "wb") as fh:
+                    fh.write(fb[1])
     # key names containing dots: "<n>.v2" lives next to "<n>" (which holds ANOTHER key), "solo.<n>" has no sibling
     for fname, ident in DOTTED.items():
         kind = ident.split("_")[0]
